@@ -64,7 +64,7 @@ def main():
     confirmed = all(res.get(k) for k in ["demo_passes_without", "patch_applies", "compiles", "suite_passes", "demo_fails_with_patch"])
     res["confirmed"] = confirmed
     res["checks"] = {}
-    if confirmed:
+    if confirmed or "--force" in sys.argv:
         # the change is applied to a scratch worktree and the checks are pointed at it (VERIF_REPO): equivalent to
         # `git -C /repo apply` + `git -C /repo checkout -- .`, without disturbing anything else that reads /repo
         wt2 = "/tmp/seedeval/repo-%d" % os.getpid()
